@@ -462,6 +462,7 @@ def run(check):
       else:
         r_h.violate('find_global not hooked', loads, None, 'the cPickle SafeUnpickler.loads does not set find_global to find_class',
                     construct='pickle_obj.find_global = cls.find_class')
+  rule_sections_direct(check, cx, check.rule('R-C13-sections-direct', 2, 'the program and the instance section are read straight into the settings object that is returned'))
 
 
 def _allowlist_terms(sc, own):
@@ -472,3 +473,27 @@ def _allowlist_terms(sc, own):
   if isinstance(lit, ast.Name):
     out.add(('param', lit.id))        # class attribute bound to a module-level allow-list
   return out
+
+
+def rule_sections_direct(check, cx, rule):
+  """every configuration section read_config() reads - the program's and the instance's - is read straight into the settings
+  object it returns: an instance override such as `[cache:b] USE_INSECURE_UNPICKLER = False` reaches the daemon whatever its
+  value.  Reading a section into a scratch object and merging 'what differs from the defaults' drops an override that equals
+  the built-in default and therefore cannot undo what the main section set."""
+  fn = cx.fn('carbon.conf', 'read_config')
+  if not rule.require(fn is not None, 'carbon.conf.read_config not found'):
+    return
+  returned = {r.value.id for r in walk_no_nested(fn.node, include_self=False) if isinstance(r, ast.Return) and isinstance(r.value, ast.Name)}
+  reads = [c for c in walk_no_nested(fn.node, include_self=False) if isinstance(c, ast.Call) and isinstance(c.func, ast.Attribute) and
+           c.func.attr == 'readFrom']
+  if not rule.require(len(reads) >= 2 and len(returned) == 1, 'expected read_config to return one settings object and to read the '
+                      'program and the instance section (found %d readFrom call(s))' % len(reads)):
+    return
+  for c in reads:
+    if isinstance(c.func.value, ast.Name) and c.func.value.id in returned:
+      rule.ok('section read into the returned settings', fn.loc(c), short(c, 60))
+    else:
+      rule.violate('section read into a scratch object', fn, c, '`%s` reads a configuration section into `%s`, not into the settings '
+                   'object read_config() returns (`%s`): what reaches the daemon is whatever the later merge lets through, and an '
+                   'instance override equal to the built-in default (USE_INSECURE_UNPICKLER = False) is lost'
+                   % (short(c, 50), unparse(c.func.value), ', '.join(sorted(returned))))
